@@ -23,8 +23,15 @@ def load(path):
             m = re.match(r'\s*property=(\S+)\s+job=(\S+)\s+clause=(\S+)\s+when=(.*)$', body.strip())
             if not m:
                 raise SystemExit('known_findings.txt:%d: cannot parse' % no)
+            when = m.group(4).strip()
+            swap = None
+            ms = re.match(r'^\*\s+swap=(\S+)/(\S+)$', when)
+            if ms:
+                # the finding concerns every input: the job is run once with clause <a> replaced by the weaker clause <b>
+                # (everything else must be discharged) and once with <a> (only there may the named obligation fail)
+                when, swap = '*', (ms.group(1), ms.group(2))
             out.append(dict(kind='finding', props=m.group(1).split(','), job=m.group(2), clause=m.group(3),
-                            when=m.group(4).strip(), what=what.strip(), line=no))
+                            when=when, swap=swap, what=what.strip(), line=no))
         elif s.startswith('fixed:'):
             out.append(dict(kind='fixed', text=s, line=no))
     return out
